@@ -6,6 +6,7 @@ from .. import inputs
 from . import geom
 
 SPEC = dict(
+    technique='Lean 4 proof (normalisation returns members, idempotent, keeps directions; angle wrapping) + float monitor of noise bands',
     lean_modules=['SmVerif.Props.C14', 'SmVerif.Props.VecPreds'],
     groups=['Transforms3d', 'Quaternions', 'Vectors'],
     expected_untranslatable=('trinterp_T', 'trinterp_T_nostart'),
